@@ -59,21 +59,23 @@ def encCtxOpt : Option Opts → O
 theorem C04_gen_make_context (W : Obj.World Opts) (self : Opts) (ctx : Option Opts) (cls fe : O) :
     (Options.Options_make_context W (encO self) cls fe (encCtxOpt ctx) >>= fun c => getattr c "options")
       = .ok (encO (makeContextOpts self ctx)) := by
-  cases ctx with
-  | none =>
-    cases hc : cls.isNone <;>
-      obj_simp [Options.Options_make_context, Options.RuntimeContext_new, Options.RuntimeContext_init, encO, encCtxOpt,
-        getattr, setattr, lookupAttr, setAttrL, OVal.isUnprovided, hc, concat, add, intOf?, makeContextOpts]
-  | some c =>
-    cases hc : cls.isNone <;> cases hs : self.override <;> cases hco : c.override <;>
-      obj_simp [Options.Options_make_context, Options.RuntimeContext_new, Options.RuntimeContext_init, encO, encCtxOpt,
-        getattr, setattr, lookupAttr, setAttrL, OVal.isUnprovided, hc, hs, hco, concat, add, intOf?, makeContextOpts,
-        toList, iter]
+  gen_obligation "C04_gen_make_context: the regenerated code (Utv.Gen) is no longer equal to the hand model here" by
+    cases ctx with
+    | none =>
+      cases hc : cls.isNone <;>
+        obj_simp [Options.Options_make_context, Options.RuntimeContext_new, Options.RuntimeContext_init, encO, encCtxOpt,
+          getattr, setattr, lookupAttr, setAttrL, OVal.isUnprovided, hc, concat, add, intOf?, makeContextOpts]
+    | some c =>
+      cases hc : cls.isNone <;> cases hs : self.override <;> cases hco : c.override <;>
+        obj_simp [Options.Options_make_context, Options.RuntimeContext_new, Options.RuntimeContext_init, encO, encCtxOpt,
+          getattr, setattr, lookupAttr, setAttrL, OVal.isUnprovided, hc, hs, hco, concat, add, intOf?, makeContextOpts,
+          toList, iter]
 
 /-- `init_dataclass`: `options.make_context(...)` when options are given for the call, else the declared ones -/
 theorem C04_gen_running_opts (W : Obj.World Opts) (declared : Opts) (given ctx : Option Opts) (cls fe : O) :
     (Options.Options_make_context W (encO (given.getD declared)) cls fe (encCtxOpt ctx) >>= fun c => getattr c "options")
-      = .ok (encO (runningOpts declared given ctx)) :=
-  C04_gen_make_context W (given.getD declared) ctx cls fe
+      = .ok (encO (runningOpts declared given ctx)) := by
+  gen_obligation "C04_gen_running_opts: the regenerated code (Utv.Gen) is no longer equal to the hand model here" by
+    exact C04_gen_make_context W (given.getD declared) ctx cls fe
 
 end Utv.GenEq.C04
